@@ -1,9 +1,100 @@
 """C15: 2D and 3D distance functions return the true minimum distance."""
+import math
 import random
+from fractions import Fraction as F
 import vlib
 from props import exact_common as ec
 
-PIPES = {"dist2": ec.pipe("dist2"), "dist3": ec.pipe("dist3")}
+FN = {"x2": ["xy.DistanceFromLineToLine", "xy.DistanceFromLineToLine(swapped)", "xy.DistanceFromPointToLine(c;ab)",
+             "xy.DistanceFromPointToLine(a;cd)"],
+      "x3": ["xyz.DistanceLineToLine", "xyz.DistanceLineToLine(swapped)", "xyz.DistancePointToLine(c;ab)",
+             "xyz.DistancePointToLine(a;cd)"]}
+SPEC = {"x2": ["SqDistSegSeg2(%(a)s, %(b)s, %(c)s, %(d)s)", "SqDistSegSeg2(%(c)s, %(d)s, %(a)s, %(b)s)",
+               "SqDistPtSeg2(%(c)s, %(a)s, %(b)s)", "SqDistPtSeg2(%(a)s, %(c)s, %(d)s)"],
+        "x3": ["SqDistSegSeg3(%(a)s, %(b)s, %(c)s, %(d)s)", "SqDistSegSeg3(%(c)s, %(d)s, %(a)s, %(b)s)",
+               "SqDistPtSeg3(%(c)s, %(a)s, %(b)s)", "SqDistPtSeg3(%(a)s, %(c)s, %(d)s)"]}
+
+
+def big_pipe(ctx, verdict, cases, name="distx"):
+    """Large-grid tier: Apalache decides |got - sqrt(num/den)| <= 1e-9 * scale on exact integers."""
+    drv = [dict(op=c["op"], segs=[c["seg"]]) for c in cases]
+    obs = list(vlib.run_driver(ctx, "distx", drv, for_tlc=False))
+    exprs, sigs = [], []
+    for c, o in zip(cases, obs):
+        parts, why = [], "wrong-value"
+        rows = o.get("rows", [])
+        if o["ev"] != "ok" or len(rows) != 1:
+            parts = ["FALSE"]
+            why = o["ev"]
+        else:
+            row = rows[0]
+            sin = [v for p in row["x"] for v in p]
+            bad = [r["t"] for r in row["r"] if r["t"] not in ("num", "big")]
+            if bad:
+                parts, why = ["FALSE"], bad[0]
+            else:
+                i_in, i_out, k = ec.obs_ints(sin, [r["x"] for r in row["r"]])
+                dim = len(row["x"][0])
+                P = dict(zip("abcd", [ec.tla_pt(i_in[dim * j:dim * j + dim]) for j in range(4)]))
+                sc = max(1, max(abs(v) for v in i_in))
+                for j, g in enumerate(i_out):
+                    parts.append("DistExactOK(%s, %d, 1000000000, %s)" % (ec.tla_int(g), sc, SPEC[c["op"]][j] % P))
+        exprs.append(" /\\ ".join(parts))
+        sigs.append("dist|big|%s|%s|%s" % (c["op"], c["fam"].split("/")[0], why))
+    return ec.apalache_obs(ctx, verdict, "DistX", exprs, cases, sigs, name, per_module=8 if ctx.quick else 40)
+
+
+def apparent_error(c, o):
+    """Prioritisation only (never a verdict): relative deviation of the recorded results from the exact distance,
+    computed with fractions and a float sqrt; the worst-looking cases go to the model checker first."""
+    rows = o.get("rows", [])
+    if o["ev"] != "ok" or len(rows) != 1:
+        return 1e9
+    row = rows[0]
+    if any(r["t"] not in ("num", "big") for r in row["r"]):
+        return 1e9
+    P = [[ec.parse_exact(v) for v in p] for p in row["x"]]
+
+    def dot(u, v):
+        return sum(x * y for x, y in zip(u, v))
+
+    def sub(u, v):
+        return [x - y for x, y in zip(u, v)]
+
+    def ptseg(p, a, b):
+        ab, ap = sub(b, a), sub(p, a)
+        l2, t = dot(ab, ab), dot(ap, ab)
+        if l2 == 0 or t <= 0:
+            return dot(ap, ap)
+        if t >= l2:
+            return dot(sub(p, b), sub(p, b))
+        return dot(ap, ap) - t * t / l2
+    a, b, cc, d = P
+    want = [None, None, ptseg(cc, a, b), ptseg(a, cc, d)]
+    size = float(max(abs(v) for p in P for v in p) or 1)
+    worst = 0.0
+    for j in (2, 3):
+        got = float(ec.parse_exact(row["r"][j]["x"]))
+        worst = max(worst, abs(got - math.sqrt(float(want[j]))) / size)
+    g0, g1 = float(ec.parse_exact(row["r"][0]["x"])), float(ec.parse_exact(row["r"][1]["x"]))
+    worst = max(worst, abs(g0 - g1) / size)                      # asymmetry of the segment-segment result
+    lo = min(math.sqrt(float(ptseg(a, cc, d))), math.sqrt(float(ptseg(b, cc, d))), math.sqrt(float(ptseg(cc, a, b))),
+             math.sqrt(float(ptseg(d, a, b))))
+    worst = max(worst, (g0 - lo) / size)                          # larger than the best endpoint distance
+    return worst
+
+
+def screened(ctx, op, n_pool, n_keep):
+    dim = 2 if op == "x2" else 3
+    pool = [dict(c, op=op) for c in ec.seg_pairs(ctx.seed + 5 + dim, n_pool, grids=(1 << 12, 1 << 16, 1 << 20), dim=dim)]
+    obs = list(vlib.run_driver(ctx, "distx", [dict(op=op, segs=[c["seg"]]) for c in pool], for_tlc=False))
+    scored = sorted(((apparent_error(c, o), i) for i, (c, o) in enumerate(zip(pool, obs))), key=lambda t: -t[0])
+    ctx.coverage_extra.setdefault("screened_pool", []).append(
+        dict(op=op, pool=len(pool), kept=n_keep, worst_apparent_relative_error=scored[0][0] if scored else 0))
+    return [dict(pool[i], fam=pool[i]["fam"] + "/screened") for _, i in scored[:n_keep]]
+
+
+PIPES = {"dist2": ec.pipe("dist2"), "dist3": ec.pipe("dist3"), "distx": big_pipe}
 
 
 def run(ctx, verdict):
@@ -19,3 +110,15 @@ def run(ctx, verdict):
                 b = [j // 9, (j // 3) % 3, j % 3]
                 cases.append(dict(op="d3", a=a, b=b, n=3, cd=[[r.randrange(27), r.randrange(27)] for _ in range(24)]))
         ec.pipe("dist3")(ctx, verdict, cases)
+    n = 36 if ctx.quick else 1200
+    big = []
+    for op, dim in (("x2", 2), ("x3", 3)):
+        big += [dict(c, op=op) for c in ec.seg_pairs(ctx.seed + dim, n, grids=(1 << 10, 1 << 16, 1 << 20), dim=dim)]
+        big += screened(ctx, op, 4000 if ctx.quick else 60000, 12 if ctx.quick else 150)
+    vlib.note_cases(ctx, big)
+    big_pipe(ctx, verdict, big)
+    ctx.coverage_extra["big_tier"] = dict(cases=len(big), checker="Apalache on ExactGeom!SqDist* with tolerance 1e-9*scale")
+    ctx.assumptions += ["TLC tier: every configuration of the 3x3 grid (2-D) and of the 2x2x2 / sampled 3x3x3 lattice, "
+                        "results in 2^-8 fixed point; large-grid tier: seeded biased configurations (touching, T, collinear, "
+                        "parallel, near-parallel, point on / next to a long segment, degenerate) on grids up to 2^20 plus "
+                        "suspicious-first screening of a larger pool, tolerance 1e-9 x largest ordinate"]
